@@ -194,6 +194,10 @@ def _specs():
 
 
 def run(ctx):
+    if ctx.shard == 0:  # the repository's own pinned examples as one more workload (outcomes ignored)
+        from ..repotests import run_repo_tests
+
+        run_repo_tests(ctx, ("marker",))
     from dep_logic.markers import parse_marker
     from dep_logic.markers.single import MarkerExpression
     from dep_logic.specifiers import parse_version_specifier
@@ -258,6 +262,11 @@ def run(ctx):
 
 
 def replay(ctx, case):
+    if isinstance(case, dict) and case.get("kind") == "repo-test":
+        from ..repotests import run_repo_tests
+
+        run_repo_tests(ctx, nodeid=case["nodeid"])
+        return
     from dep_logic.markers import parse_marker
     from dep_logic.markers.single import MarkerExpression
     from dep_logic.specifiers import parse_version_specifier
